@@ -40,6 +40,10 @@ pub fn check_canonical(u: &UriCase, r: &str) -> Result<(), Fail> {
     if !sp.host.eq_ignore_ascii_case(&u.host) {
         return Err(Fail::new("C13/host", format!("printer-uri {r:?} from target {:?}: host {:?} expected {:?}", u.text(), sp.host, u.host)));
     }
+    // the host as given, or in RFC 3986's normal form (lower case) - not some third spelling
+    if sp.host != u.host && sp.host != u.host.to_ascii_lowercase() {
+        return Err(Fail::new("C13/host-spelling", format!("printer-uri {r:?} from target {:?}: host {:?} is neither the host as given ({:?}) nor its lower-case normal form", u.text(), sp.host, u.host)));
+    }
     match (u.port_num(), sp.port.as_ref()) {
         (None, None) => {}
         (Some(a), Some(b)) if b.parse::<u32>().ok() == Some(a) => {}
@@ -143,9 +147,57 @@ pub fn run_c13(ctx: &Ctx) {
     ctx.set_rule("proptest-generated absolute target URIs built from components (scheme in {http,https,ipp,ipps}; optional user-info with marker tokens in user and password, percent-encoding, extra ':'; host reg-name / IPv4 / bracketed IPv6; port absent / 1-65535 / leading zeros; path empty, '/', percent-encoded segments, ';', '//', dot segments; query with marker tokens, '?', '=', '@', '/'). Oracle: own splitter + component algebra + taint (no marker substring anywhere), idempotence, and the same for the printer-uri attribute and the encoded bytes of 11 request constructors/builders (each one evaluation). Non-trivial = URI has user-info or query and (non-reg-name host or explicit port or percent-encoded path); distinct by URI string.");
     let (shards, per) = ctx.tier.pick((16, 12000), (16, 200000));
     run_prop(ctx, "canonicalize", shards, per, uri_case, judge_c13, |u| u.to_json());
+    ctx.append_rule(HISTORY_RULE);
+    let (shards, per) = ctx.tier.pick((16, 3000), (16, 50000));
+    run_prop(ctx, "target-history", shards, per, uri_history, |h, p| judge_history(h, p, judge_c13), history_json);
+}
+
+pub const HISTORY_RULE: &str = " Plus target histories: 4-12 targets used one after another on the same thread, each a generated base target (2-4 per history) or a close relative of one - host, path or user-info in the other letter case, the partner scheme, a user name equal to the host name, port or query toggled - each judged by the same oracle (non-trivial = the history returns to a target after using a different one in between).";
+
+pub fn history_json(h: &Vec<UriCase>) -> Value {
+    json!({"target_history": h.iter().map(|u| u.to_json()).collect::<Vec<_>>()})
+}
+
+pub fn history_from_json(v: &Value) -> Option<Vec<UriCase>> {
+    v.get("target_history")?.as_array()?.iter().map(UriCase::from_json).collect()
+}
+
+pub fn judge_history(h: &Vec<UriCase>, p: &Probe, one: fn(&UriCase, &Probe) -> Judge) -> Judge {
+    let texts: Vec<String> = h.iter().map(|u| u.text()).collect();
+    let returns = (2..texts.len()).any(|i| texts[..i - 1].contains(&texts[i]) && texts[i - 1] != texts[i]);
+    let relatives = (1..texts.len()).any(|i| texts[..i].iter().any(|t| t != &texts[i] && t.eq_ignore_ascii_case(&texts[i])));
+    if returns {
+        p.label("history returns to an earlier target after a different one");
+        p.nontrivial(hash64(&texts));
+        if p.want_sample() {
+            p.sample(json!({"target_history": texts.iter().map(|t| t.chars().take(80).collect::<String>()).collect::<Vec<_>>()}));
+        }
+    }
+    if relatives {
+        p.label("history has targets differing only in letter case");
+    }
+    let quiet = Probe { ctx: p.ctx, counting: false };
+    for (i, u) in h.iter().enumerate() {
+        p.extra_eval(1);
+        match one(u, &quiet) {
+            Ok(()) => {}
+            // a recorded finding is excluded here exactly as in the single-target search, and the
+            // history goes on
+            Err(f) if p.ctx.is_known(&f.sig).is_some() => {
+                if p.counting {
+                    p.ctx.known_hit(&f.sig);
+                }
+            }
+            Err(f) => return Err(Fail::new(format!("{}/in-history", f.sig), format!("target #{i} of the history {:?}: {}", texts.iter().map(|t| t.chars().take(100).collect::<String>()).collect::<Vec<_>>(), f.msg))),
+        }
+    }
+    Ok(())
 }
 
 pub fn replay_c13(ctx: &Ctx, _sub: &str, case: &Value) -> Judge {
+    if let Some(h) = history_from_json(case) {
+        return judge_history(&h, &Probe { ctx, counting: false }, judge_c13);
+    }
     let u = UriCase::from_json(case).ok_or_else(|| Fail::new("bad-replay", "uri"))?;
     judge_c13(&u, &Probe { ctx, counting: false })
 }
@@ -238,6 +290,9 @@ pub fn run_c14(ctx: &Ctx) {
     ctx.set_rule("proptest-generated target URIs (as C13) mapped through the hook verif_transport_url (the private function both clients call); result split by the harness's own splitter: ipp->http, ipps->https, port = explicit port else 631 for both schemes, user-info/host/path(empty==/)/query unchanged byte-for-byte; http/https unchanged. Non-trivial = scheme ipp/ipps and (IPv6 host or user-info or no port or query); distinct by URI string. Plus live cases per run (40 quick / 400 thorough) through a loopback HTTP server with explicit ports, tying the hooked function to what both clients really dial (request line, Host header), and 3 live cases checking that the target's user-info reaches the HTTP layer (observable as the Authorization header the backends derive from it).");
     let (shards, per) = ctx.tier.pick((16, 25000), (16, 400000));
     run_prop(ctx, "transport-url", shards, per, uri_case, judge_c14, |u| u.to_json());
+    ctx.append_rule(HISTORY_RULE);
+    let (shards, per) = ctx.tier.pick((16, 5000), (16, 80000));
+    run_prop(ctx, "target-history", shards, per, uri_history, |h, p| judge_history(h, p, judge_c14), history_json);
     // live: what both clients really dial for ipp:// targets with explicit ports (request line, Host)
     crate::c11::live_c14(ctx, ctx.tier.pick(40, 400));
     crate::c11::live_userinfo(ctx);
@@ -250,6 +305,9 @@ pub fn replay_c14(ctx: &Ctx, _sub: &str, case: &Value) -> Judge {
         crate::c11::live_userinfo(ctx);
         crate::c11::live_c14(ctx, 40);
         return if ctx.violation_count() > before { Err(Fail::new("C14/live", "reproduced (see the replay files just written)".to_string())) } else { Ok(()) };
+    }
+    if let Some(h) = history_from_json(case) {
+        return judge_history(&h, &Probe { ctx, counting: false }, judge_c14);
     }
     let u = UriCase::from_json(case).ok_or_else(|| Fail::new("bad-replay", "uri"))?;
     judge_c14(&u, &Probe { ctx, counting: false })
